@@ -23,7 +23,9 @@
 //     A3  request reload (nocacheHack: Cache-Control no-cache / Pragma no-cache when an ignore-reload/reload-into-ims rule exists)
 //         with the default rule                                                          => a STALE_* verdict
 //     A4  entry marked ENTRY_REVALIDATE_ALWAYS (reply no-cache/private), or ENTRY_REVALIDATE_STALE (must-revalidate,
-//         proxy-revalidate, s-maxage) and lifetime passed                                => STALE_MUST_REVALIDATE, whatever the request says
+//         proxy-revalidate, s-maxage) and lifetime passed                                => a STALE_* verdict, whatever the request says
+//         (not demanded: the exact code STALE_MUST_REVALIDATE -- refreshStaleness() returns the time_t staleness as int, and with
+//         clock + min-fresh - expiry >= 2^31 (request "min-fresh=2000000000") it wraps negative: the verdict is then STALE_EXPIRES)
 //     A5  FRESH_EXPIRES only if E > now (+ honoured min-fresh); FRESH_MIN_RULE/FRESH_LMFACTOR_RULE only without explicit lifetime;
 //         FRESH_REQUEST_MAX_STALE_* only with a honoured request max-stale on an entry not marked for revalidation;
 //         FRESH_OVERRIDE_* never (no override configured); refreshCheckHTTP() says "stale" exactly for verdicts >= 200
@@ -31,7 +33,9 @@
 //       unparsable) | -1, in that order of precedence.
 //   K3: lifetime L = s-maxage | max-age | Expires - Date (Date = receipt time when absent/invalid; an unparsable Expires = already
 //       expired), resident = now - receipt time (<= current_age of RFC 9111 4.2.3):
-//     C1  a FRESH verdict other than the request's max-stale ones  => explicit L implies resident < L
+//     C1  explicit L and resident >= L  => a STALE_* verdict for a plain later request
+//   Two input classes violate C1 on the unchanged tree (KNOWN-FINDING candidates F1, F2, described and excluded in chain()).
+// Quick tier: the clock (K1) / the receipt time (K3) stands at 10^9 and all other times are symbolic; thorough: symbolic too.
 #include "C11_env.h"
 #include "time/gadgets.h"
 #include "mgr/Registration.h"
@@ -118,7 +122,8 @@ extern "C" void c12_verdict(void)
     World w;
     // max_stale of squid.conf: default 1 week; thorough: any value (negative = no limit). It only selects between STALE_* codes.
     Config.maxStale = T(604800, (time_t)(int32_t)vf_nondet_u32("config_max_stale"));
-    const int64_t now = vf_range(0, T31, "now");
+    // quick tier: the clock stands at 10^9 (2001-09-09) and everything else is symbolic relative to it; thorough: symbolic clock
+    const int64_t now = T(1000000000, vf_range(0, T31, "now"));
     squid_curtime = (time_t)now;
     const int64_t ts = vf_range(0, T31, "timestamp");
     const int64_t E = (int32_t)vf_nondet_u32("expires");
@@ -241,8 +246,8 @@ static void chain(const bool withLastModified)
     defaults();
     World w;
     Config.maxStale = 604800;
-    // receipt
-    const int64_t t0 = vf_range(0, T31, "received");
+    // receipt (quick tier: at 10^9 = 2001-09-09; every other time stays symbolic, so every Date/Expires skew relative to it is covered)
+    const int64_t t0 = T(1000000000, vf_range(0, T31, "received"));
     squid_curtime = (time_t)t0;
     if (withLastModified) {
         markL = (time_t)vf_range(0, T31, "last_modified");
@@ -261,12 +266,15 @@ static void chain(const bool withLastModified)
     // replaces the old Date by t0 (served_date) but still adds (expires - Date): entry->expires = t0 + (t0 - Date), so the
     // already-expired reply is FRESH_EXPIRES for as long as the Date was old (replay: received=524288 date=1024 expires_field=2 now=852334).
     if (!(C12_SHOW & 1) && byExpires && !h.expiresValid && h.hasDate) vf_assume(!(h.D < t0 - 86400));
-    // KNOWN-FINDING candidate F2: the lifetime comes from a valid Expires, the Date field is ahead of Squid's clock (served_date = t0) and
-    // Expires <= Date - t0 - 1 (e.g. "Expires: Thu, 01 Jan 1970 00:00:01 GMT" from an origin whose clock is 2 s ahead): the rebased
-    // entry->expires = t0 + Expires - Date is <= -1, which refreshStaleness() reads as "no explicit expiry", and with a Last-Modified
-    // field the reply is FRESH_LMFACTOR_RULE although it had expired before it was sent (replay: received=1073741824
-    // last_modified=1006632960 date=1879048192 expires=805273600 now=1073741824). Without Last-Modified the verdict is STALE_DEFAULT.
-    if (!(C12_SHOW & 2) && withLastModified && byExpires && h.expiresValid && h.hasDate) vf_assume(!(h.D > t0 && h.X <= h.D - t0 - 1));
+    // KNOWN-FINDING candidate F2: the lifetime comes from Expires, the Date field is ahead of Squid's clock (served_date = t0) and
+    // Expires <= Date - t0 - 1 (e.g. "Expires: Thu, 01 Jan 1970 00:00:01 GMT" from an origin whose clock is 2 s ahead; for an
+    // unparsable Expires, taken as t0: Date >= 2*t0 + 1): the rebased entry->expires = t0 + Expires - Date is <= -1, which
+    // refreshStaleness() reads as "no explicit expiry", and with a Last-Modified field the reply is FRESH_LMFACTOR_RULE although it
+    // had expired before it was sent (replays: received=1073741824 last_modified=1006632960 date=1879048192 expires=805273600
+    // now=1073741824; received=107470848 last_modified=40361984 date=782237696 expires_field=2 now=107470848).
+    // Without Last-Modified the verdict is STALE_DEFAULT.
+    if (!(C12_SHOW & 2) && withLastModified && byExpires && h.hasDate)
+        vf_assume(!(h.D > t0 && t0 + (h.expiresValid ? h.X : t0) - h.D <= -1));
 
     w.entry->timestamp = -1; w.entry->expires = -1; w.entry->lastModified_ = -1; // as new StoreEntry
     w.entry->timestampsSet();
